@@ -24,6 +24,7 @@ class C04(WigBedProp):
             o["ips"] = r.choice([1, 2, 3])
             o["bs"] = r.choice([2, 3])
             o["reader"] = r.choice(["plain", "cached", "fresh", "freshcached"])
+            names = bbgen.free_chrom_order(r, names, o, tags)
             lines = [bbgen.opt_line(o)] + bbgen.bed_lines(names, sizes, data)
             lines += bbgen.gen_queries(r, names, sizes, data, ["iv"], r.range(6, 10), ips=o["ips"], strict_nonempty=True)
             if "max_end_not_last" in tags:
